@@ -166,6 +166,7 @@ def main():
     results = core.run_jobs(jobs)
     rep.add_results(results)
     core.triage(rep, results, info, replayer=make_replayer(info))
+    rep.validate_translation(info)
     return rep.finish('proof', 'goto-cc | cbmc --bounds-check --pointer-check --signed-overflow-check --object-bits 12 (loop-free harnesses, full 32-bit code domain / nondeterministic memory backgrounds)',
                       core.TRUSTED_BASE)
 
